@@ -19,6 +19,11 @@ CLAIMED = {
   note="Trusted: gowp, go/ssa, solvers, amd64 float->int table; math.* per Go documentation; (*object).DefaultValue result well-formedness is a trusted contract.",
   technique="contract-based deductive verification: postconditions from ES5 sections 9/11 as SMT FP/BV spec functions, VCs over go/ssa discharged by z3/cvc5",
   ref="6 C05"),
+ "C06": dict(
+  text="Proof of the guards and special cases around number formatting and parseInt, not of the digits: ToString of a double names NaN and the infinities and chooses the plain decimal layout exactly for 1e-6 <= |x| < 1e21 (all doubles) and hands the value itself to the digit generator with 'shortest' precision; toFixed/toExponential/toPrecision/toString(radix) throw RangeError exactly when ToInteger of the argument is outside 0..20, 0..20, 1..21, 2..36 (for every numeric argument, including NaN and +-Infinity) and return 'NaN' for a NaN receiver in the step order of 15.7.4.5-7; parseInt keeps every index into the text in bounds, maps digit characters to their values and applies a leading '-' on the float-accumulation path (non-negative accumulator invariant). The digit strings themselves (strconv shortest round-trip, exponent layout, radix fractions), parseFloat, Number() of strings and numeric literals are library- or regexp-decided and not covered.",
+  note="Trusted: gowp, go/ssa, solvers; strconv.FormatFloat/ParseInt are library calls whose results are not modelled (only their call arguments are specified); arguments assumed numeric and primitive in the guard contracts. Three defects fixed, layout defects recorded as a known finding.",
+  technique="contract-based deductive verification: throws/ensures guards over ToInteger spec functions and at_call assertions on library calls; VCs over go/ssa discharged by z3/cvc5",
+  ref="6 C06"),
  "C07": dict(
   text="Proof that [[DefineOwnProperty]] (ES5 8.12.9) accepts, rejects and merges attributes exactly as the thirteen steps prescribe, stated over the whole resulting property record and the whole property table (nothing else changes), for every current property and descriptor; [[GetOwnProperty]], [[GetProperty]], [[CanPut]] (own/inherited data and accessor cases, extensibility) and [[Delete]] per 8.12.1-7; the octal attribute algebra; dispatch-table slots. Histories are covered by induction over these per-operation contracts (paper lemma), prototype chains through the trusted dispatcher contracts.",
   note="Trusted: gowp, go/ssa, solvers; dispatcher methods ((*object).getOwnProperty etc.) are trusted contracts tied to the table obligations; SameValue as an abstract function; propertyOrder contents (enumeration order) not yet specified.",
